@@ -75,7 +75,7 @@ def generate(seed, tier):
             m = LC.gen_mine(rng, latest_bias=0.55, max_txs=3)
             m.update({'op': 'relay', 'peer': peer, 'overlap': rng.random() < 0.2,
                       'clock': rng.choice([0, 0, -25, 5, 100]),
-                      'future': rng.choice([None] * 8 + [20, 28, 37, 45]),
+                      'future': rng.choice([None] * 8 + [20, 28, 30, 31, 31, 37, 45]),
                       # a valid block pushed as a "response" nobody asked for: to be treated like any unsolicited block
                       'route': 'unrequested' if rng.random() < 0.1 else 'relay'})
             ops.append(m)
@@ -102,6 +102,9 @@ def generate(seed, tier):
             ops.append({'op': 'restart', 'graceful': rng.random() < 0.5})
     return {'config': {'base': base, 'build': build, 'bots': rng.randint(2, 4),
                        'skew_ms': rng.choice([0, 0, 3000, -3000, 20000]),
+                       # a freshly installed node: genesis only, its last validated state is the empty chain; the world's first
+                       # blocks arrive by bulk download
+                       'from_genesis': base == 'hlow_easy' and rng.random() < 0.3,
                        'file_store': base == 'hlow_easy'}, 'ops': ops}
 
 
@@ -133,6 +136,7 @@ def execute(script):
         delivered_valid = []                 # blocks accepted earlier (for duplicates)
         installs = []                        # ids in the order the node installed them
         install_validated = {}               # id -> the 'validated' flag the node passed when installing it
+        install_time = {}                    # id -> the node's clock at that moment (validation was earlier, never later)
         unflushed = set()                    # installed unvalidated (bulk route) since the last validated install: only buffered
         dropped = []                         # blocks the node dropped again by rolling back (may be delivered again)
         cs_valid = {'cs': sim.cs}            # the shadow state as of the last moment nothing was unflushed
@@ -150,6 +154,7 @@ def execute(script):
                         if h not in prev.block_by_hash:
                             installs.append(h)
                             install_validated[h] = validated
+                            install_time[h] = node.clock_s()      # the node's clock (fractions included) when it installed the block
                 elif len(coinstate.block_by_hash) < len(prev.block_by_hash):
                     # the node falls back to an earlier state
                     installs.append(('rollback', frozenset(set(prev.block_by_hash.keys()) - set(coinstate.block_by_hash.keys()))))
@@ -243,7 +248,11 @@ def execute(script):
                     res.violate(PROP, 'C09/unknown-block-in-state', 'node installed a block nobody delivered: %s' % bid.hex()[:12])
                     return False
                 blk = cand['block']
-                late = judge_block(chain, blk, t_end, evidence_tool, consensus.calc_merkle_root_hash, sim.sig_cache)
+                # judged with the clock of the moment of installation, fractions of a second included: a block dated more than 30 s
+                # ahead of that was more than 30 s ahead of the validator's clock when it was validated
+                late = judge_block(chain, blk, install_time.get(bid, t_end), evidence_tool, consensus.calc_merkle_root_hash, sim.sig_cache)
+                if late and cand.get('trusted_history'):
+                    late = []       # the world's block 1 (states the trivial target): trusted history, delivered by bulk download only
                 if late:
                     res.violate(PROP, 'C09/invalid-block-entered-state',
                                 'delivered block (%s) entered chain state although: %s' % (cand['label'], late),
@@ -265,6 +274,7 @@ def execute(script):
                         res.bump('probe:bulk_block_installed_unvalidated')
                         continue
                     unflushed.clear()              # a validated install flushes everything buffered
+                    cs_valid['cs'] = sim.cs        # ... and is the state a later fall-back returns to
                     res.bump('accepted_relays')
                     if cand['became_head']:
                         res.bump('probe:relay_became_head')
@@ -299,7 +309,7 @@ def execute(script):
                     res.violate(PROP, 'C09/valid-block-not-accepted',
                                 'a valid block on a known parent, delivered outside bulk download, is not in chain state (%s)' % cand['label'])
                     return False
-                if early:
+                if early and not cand.get('trusted_history'):
                     rejected.add(bid)      # only what the rules forbid must never show up later
                     cand['rejected_now'] = True
                 res.bump('rejected_relays')
@@ -369,10 +379,41 @@ def execute(script):
                 cs_valid['cs'] = sim.cs
             return True
 
+        syncs = [0]
+
+        def first_synchronisation():
+            # (the world's block 1 is trusted history that full validation would refuse; a node may validate what it likes - it
+            #  does when an older announcement of the same block by the same peer is still on its books - so each attempt uses
+            #  another peer, and a block 1 that is not taken is not an error)
+            todo = sorted((b_ for b_ in dropped if rules.block_id(b_) not in accepted), key=lambda b_: b_.height)
+            syncs[0] += 1
+            for b_ in todo:
+                if b_.header.summary.previous_block_hash not in accepted:
+                    continue
+                send_block(b_, syncs[0] - 1, 'first-synchronisation', 'context', route='bulk')
+                batch[-1]['pool_before'] = None
+                batch[-1]['trusted_history'] = b_.height == 1 and rules.block_id(b_) == rules.block_id(W._EASY['b'])
+                if not settle_and_check():
+                    return False
+            res.bump('probe:first_synchronisation_from_genesis')
+            return True
+
+        from_genesis = bool(cfg.get('from_genesis'))
+        if from_genesis:
+            genesis_id = sim.stored[0]
+            cs_valid['cs'] = sim.cs_genesis
+            model_drop(set(initial_ids) - {genesis_id}, 'probe:node_starts_from_genesis_only')
+            initial_ids = {genesis_id}
+            first_synchronisation()
+
         for op in script['ops']:
             if res.violations or node.loop_error:
                 break
             kind = op['op']
+            if from_genesis and len(chain.blocks) == 1 and not batch and kind != 'restart':
+                # fallen back to the empty chain (nothing can be mined on the real genesis target here): the download starts over
+                if not first_synchronisation():
+                    break
             if not batch:
                 pool_now = w.pool_ids()
             if kind in ('relay', 'orphan'):
@@ -520,7 +561,8 @@ def execute(script):
             elif kind == 'redeliver_dropped':
                 if not settle_and_check():
                     break
-                cands = [b_ for b_ in dropped if b_.header.summary.previous_block_hash in accepted and rules.block_id(b_) not in accepted]
+                cands = [b_ for b_ in dropped if b_.header.summary.previous_block_hash in accepted and rules.block_id(b_) not in accepted
+                         and not (from_genesis and b_.height == 1)]     # (the world's trusted block 1 comes by first_synchronisation only)
                 if not cands:
                     continue
                 blk = cands[op.get('n', 0) % len(cands)]
@@ -661,9 +703,10 @@ def execute(script):
                 if shared:
                     res.bump('restart_skipped_shared_transaction')
                     continue
-                if race_flushed - accepted:
+                if race_flushed - accepted or race_flushed & unflushed:
                     # blocks the other thread flushed while they were only buffered and that the node dropped afterwards are on
-                    # disk: a restart brings them back (they were never judged); not followed by the reference
+                    # disk: a restart brings them back (they were never judged); not followed by the reference (neither when they
+                    # have been downloaded again since and are 'only buffered' for the node but on disk in fact)
                     res.bump('restart_skipped_race_flushed_blocks')
                     continue
                 if unflushed:
